@@ -10,7 +10,7 @@ def plain_extra(chk, corpus):
         if kind != "plain":
             continue
         n += 1
-        why = vmcheck.plain_oracle(data)
+        why = vmcheck.timed(vmcheck.plain_oracle, data, default=None)    # hangs: reported by the correspondence
         if why:
             bad.append({"kind": "plain", "hex": data.hex(), **why})
     chk.stats["plain-data exec==original checked"] = n
@@ -44,7 +44,7 @@ def layer_b(chk, corpus):
     bad = []
     for m in mism[:50]:
         data = bytes.fromhex(m["hex"])
-        why = vmcheck.oracle(data, want_value=True)
+        why = vmcheck.timed(vmcheck.oracle, data, want_value=True, default=None)
         if why and not any(chk.match_known(s) for s in c03.classify(data)):
             bad.append({"kind": "layerB", "hex": m["hex"], **why})
     return bad
